@@ -16,6 +16,10 @@ CLAIMED = {
    text="Machine-checked proof (Coq) that slice normalisation (Slice.GetIndices) equals Python's clipping rule for bounds and steps of any magnitude or None, that the slice count is exactly the number of selected indices, that the shared element loop reads those indices in order, and that the range length helper (go2v translation) is exact when stop-start fits a word. GetIndices and the range helpers are re-translated from the Go source by go2v on every run; the translation is compared with the structured model exhaustively on the boundary lattice inside Coq and with the real function through the Go API. Element-level operations of the five sequence types (including no-alias / operand-intact checks) are compared with CPython (validated oracle, testing).",
    note="Trusted: Coq kernel; go2v; the structured GetIndices model is tied to the regenerated translation only on the finite lattice (29^3 x 8 points, inside Coq) plus sampled Go API runs. Partial: per-type element loops, aliasing and error classes of list/tuple/str/range/bytes are covered by differential testing against CPython 3.11, not by theorems.",
    technique="Rocq/Coq proof (lia/nia) of a structured model + in-kernel exhaustive comparison with the go2v translation of the source + CPython differential for element operations", ref="5/C13"),
+ "C16": dict(
+   text="Machine-checked proof (Coq) about a model of pmerge/mro_implementation and GetAttrString: an accepted class always gets a consistent linearisation (itself first, every base's MRO and the declared base order preserved, exactly its ancestors, no duplicates), a hierarchy with no such linearisation is rejected, and lookup returns the instance's own attribute or else the first definition along the MRO. The model is tied to the code by running generated class DAGs (exhaustive to 4 classes, sampled to 6) on the implementation and comparing MRO order probes with the model inside Coq; binding, isinstance and write locality are compared with CPython.",
+   note="Trusted: Coq kernel; the hand-written MRO/lookup model (correspondence-tied on generated DAGs only); CPython 3.11 as validated oracle for descriptor binding, isinstance, write/delete locality. __name__/__mro__/__class__ introspection is absent in gpython and not used.",
+   technique="Rocq/Coq inductive proof over a hand-written C3 merge model + vm_compute correspondence on class DAG programs + CPython differential", ref="5/C16"),
 }
 NOT_YET = "check not built yet in this round (planned in DESIGN.md section 8)"
 checks = []; na = []
